@@ -215,6 +215,7 @@ def make_query(oid, which, system, metric, batched, in_radians, op, tiers=("quic
                 exp_r = sc.z(r) * conv if (system == "spherical" and not in_radians) else sc.z(r)
                 ctx.prove("radius handed to the tree is in the tree's unit (degrees -> radians exactly when the tree is spherical and in_radians=False)",
                           _zr(r_) == exp_r, regions={"radius_unit": True})
+            ctx.prove("the caller's query array is left unchanged", z3.And(*[_zr(a) == b for a, b in zip(Q.flat_list(), [x for row in q for x in row])]))
             # the query columns: same quantities / order / unit as the columns the tree was built from
             Xf = X.flat_list()
             w = X.shape_cap[1]
@@ -291,6 +292,10 @@ def make_query(oid, which, system, metric, batched, in_radians, op, tiers=("quic
                 return None if (k < 1 or k > N_NODE) else f"query(k={k}) raised for a valid k"
             if k < 1 or k > N_NODE:
                 return f"query(k={k}) did not raise"
+            Q0 = Q.copy()
+            d, ind = t.query(Q, k=k, in_radians=in_radians, return_distance=True)      # same array object again
+            if not np.array_equal(Q, Q0):
+                return f"query() modified the caller's query array: {Q0.tolist()} -> {Q.tolist()}"
             d, ind = np.asarray(d, dtype=float).reshape(nq, k), np.asarray(ind).reshape(nq, k)
             for i in range(nq):
                 order = sorted(range(N_NODE), key=lambda n: dist(n, pts[i]))[:k]
